@@ -1,5 +1,6 @@
 import LexgenModel.Proofs.NextMore
 import LexgenModel.Proofs.EndToEnd
+import LexgenModel.Proofs.DumpedMachine
 /-!
 # C09 — Every next() call terminates, makes progress, and never panics (model part)
 -/
@@ -42,5 +43,21 @@ theorem C09_initial_ready (cfg : Config σ τ ε) (user : σ) (chars : List Nat)
   show (0 : Nat) = renumber cfg.inl 0
   unfold renumber
   simp
+
+/-- The same for the machine the REAL macro dumped: `stageOK` (evaluated by `lexmodel` on every dumped machine) contains the well-formedness checker,
+whose verdict implies `MachineOK` (`C01_checker_establishes_hypotheses`); so on that machine too every `next()` terminates, makes progress and the
+item bound holds — whatever the inlining policy, state numbering and table shapes of the macro that produced it. -/
+theorem C09_real_machine (c : Compiled) (dfa : DFA Trans) (entries : List (String × Nat)) (ctxs : List (DFA Nat)) (inl : List Nat)
+    (hs : stageOK c dfa entries ctxs inl = true)
+    (actions : Nat → Action σ τ ε) (width : Nat → Nat) (input : Option (List Nat)) (st : LState σ)
+    (hr : Ready { dfa := dfa, ctxs := ctxs, entries := entries, inl := inl, actions := actions, width := width, input := input } st) :
+    (∃ r, next { dfa := dfa, ctxs := ctxs, entries := entries, inl := inl, actions := actions, width := width, input := input } st = some r) ∧
+    (∀ n, itemCount (runN { dfa := dfa, ctxs := ctxs, entries := entries, inl := inl, actions := actions, width := width, input := input } n st).1
+        ≤ st.iter.length + 1 ∧
+      ∀ x ∈ (runN { dfa := dfa, ctxs := ctxs, entries := entries, inl := inl, actions := actions, width := width, input := input } n st).1, x ≠ none) := by
+  obtain ⟨_, _, _, _, _, hwf, _, _⟩ := Dumped.stageOK_unpack c dfa entries ctxs inl hs
+  have hm : MachineOK ({ dfa := dfa, ctxs := ctxs, entries := entries, inl := inl, actions := actions, width := width, input := input } : Config σ τ ε) :=
+    machineOK_of_checker _ ctxs.length hwf
+  exact ⟨next_total _ hm st hr, fun n => ⟨(runN_items_le _ hm st hr n).1, (runN_items_le _ hm st hr n).2.1⟩⟩
 
 end Lexgen
